@@ -299,20 +299,41 @@ def eptr(rep, prog, fn, region, rule="C15.eptr-discipline"):
 
 def atomic_accumulator(rep, prog):
     fns = prog.fns("vec3::translate")
+
+    def field_of(fn, lhs):
+        """the vec3 component an lvalue designates: a member access, or a reference local bound to one (an inlined helper's
+        reference parameter)"""
+        lhs = strip(lhs)
+        if lhs.get("k") == "MemberExpr" and (lhs.get("ref") or {}).get("qn", "").startswith("vec3::d"):
+            return lhs["ref"]["name"]
+        if lhs.get("k") == "DeclRefExpr" and (lhs.get("ref") or {}).get("dk") == "Var":
+            for v in walk(fn["body"]):
+                if v.get("k") == "Var" and v.get("did") == lhs["ref"].get("did") and (v.get("t") or "").rstrip().endswith("&") and isinstance(v.get("init"), dict):
+                    return field_of(fn, v["init"])
+        return None
+
     for fn in fns:
         fi = prog.index(fn)
         n = 0
         for m in walk(fn["body"]):
             if m.get("k") == "CompoundAssignOperator" or (m.get("k") == "BinaryOperator" and m.get("op") == "="):
-                lhs = strip(m["c"][0])
-                if lhs.get("k") == "MemberExpr" and lhs["ref"].get("qn", "").startswith("vec3::d"):
+                name = field_of(fn, m["c"][0])
+                if name is not None:
                     n += 1
                     sync = F.sync_of(fi, m)
                     if sync == "atomic":
-                        rep.ok("C15.atomic-accumulator", prog, fn, m, "%s is under '#pragma omp atomic'" % short(m, 40))
+                        rep.ok("C15.atomic-accumulator", prog, fn, m, "%s (component %s) is under '#pragma omp atomic'" % (short(m, 40), name))
                     else:
-                        rep.violation("C15.atomic-accumulator", prog, fn, m, "non-atomic %s" % lhs["ref"]["name"],
+                        rep.violation("C15.atomic-accumulator", prog, fn, m, "non-atomic %s" % name,
                                       "%s in %s is not an OpenMP atomic update in the program as built (pragma missing, or the translation unit is compiled without -fopenmp so the pragma is ignored): concurrent node::add_force calls from the contact phase lose updates"
                                       % (short(m, 40), fn["key"]))
+        if n == 0:
+            # an overload that hands its three components to another overload of translate on the same object
+            deleg = [c for c in walk(fn["body"]) if c.get("k") == "CXXMemberCallExpr" and c.get("callee") == "vec3::translate" and c.get("ckey") != fn["key"]
+                     and strip(call_obj(c) or {}).get("k") == "CXXThisExpr" and fi.enclosing(c, ("IfStmt", "ForStmt", "WhileStmt", "CXXForRangeStmt")) is None]
+            if len(deleg) == 1:
+                for comp in ("dx_", "dy_", "dz_"):
+                    rep.ok("C15.atomic-accumulator", prog, fn, deleg[0], "%s: component %s is updated by the overload it delegates to (%s)" % (fn["key"], comp, deleg[0].get("ckey")))
+                continue
         if n != 3:
             raise AnalysisBroken("vec3::translate: expected 3 component updates, found %d" % n)
